@@ -93,8 +93,8 @@ def squash(text):
 # ----------------------------------------------------------------------------- whole runs
 
 SITE_OF_COLUMN = {"Type": "macros.html:var.full_type | relurl(page_url)#1",
-                  "Attributes": "macros.html:var.attribs | join(\", \")#1",
-                  "Name": "macros.html:var.dimension#1",
+                  "Attributes": "macros.html:var.attribs | join(\", \") | e#1",
+                  "Name": "macros.html:var.dimension | e#1",
                   "Initial": "macros.html:var.initial|e#1"}
 
 
@@ -227,11 +227,11 @@ def check_pages(doc, p, control_doc=None):
                     want = f"bind(c, name={pr['bind']})"
                     ntags = len([x for x in h.find_all(True) if x.name not in ("a", "small", "span", "button")])
                     if markup(want):
-                        exposed["macros.html:proc.bindC#1"] += 1
+                        exposed["macros.html:proc.bindC | e#1"] += 1
                         if ntags:
-                            created["macros.html:proc.bindC#1"] += 1
+                            created["macros.html:proc.bindC | e#1"] += 1
                     if squash(want) not in squash(t) or ntags:
-                        problems.append(dict(page=rel, what="heading-text", site="macros.html:proc.bindC#1",
+                        problems.append(dict(page=rel, what="heading-text", site="macros.html:proc.bindC | e#1",
                                              name=pr["name"], expected=want, got=t, extra_tags=ntags,
                                              blanks="  " in pr["bind"]))
                 if pr["ret"] and squash(f"result({pr['ret']['name']})") not in squash(t):
@@ -243,9 +243,9 @@ def check_pages(doc, p, control_doc=None):
         isite = None
         if p["iface"]:
             cands.append(G.iface_ret_text(p["iface"]))
-            isite = {"kind": "nongenint_page.html:var.kind#1", "strlen": "nongenint_page.html:var.strlen#1",
-                     "dimattr": "nongenint_page.html:attrib#1", "dim": "nongenint_page.html:var.dimension#1",
-                     "plain": "nongenint_page.html:var.kind#1"}[p["iface"]["retform"]]
+            isite = {"kind": "nongenint_page.html:var.kind | e#1", "strlen": "nongenint_page.html:var.strlen | e#1",
+                     "dimattr": "nongenint_page.html:attrib | e#1", "dim": "nongenint_page.html:var.dimension | e#1",
+                     "plain": "nongenint_page.html:var.kind | e#1"}[p["iface"]["retform"]]
         for h in soup.find_all(["h3", "h4"]):
             t = browser_text(h)
             if not t.startswith("Return Value"):
